@@ -33,58 +33,69 @@ theorem skipWs_head (x : Str) (h : headOk x = true) : skipWs x = x := by
     simp only [headOk, Bool.and_eq_true, Bool.not_eq_true'] at h
     simp [skipWs, h.2]
 
-theorem scanSeg_flat (m : Mode) (x rest : Str) (h : flatFrom m x = true) :
-    scanSeg m (x ++ rest) =
-      (sqFrom m x ++ (scanSeg .normal rest).1, (scanSeg .normal rest).2.1, (scanSeg .normal rest).2.2) := by
+/-! ### the normaliser `nm` -/
+
+theorem nrun_append (P : Char → Bool) (s : NS) (a b : Str) :
+    nrun P s (a ++ b) = ((nrun P s a).1 ++ (nrun P (nrun P s a).2 b).1, (nrun P (nrun P s a).2 b).2) := by
+  induction a generalizing s with
+  | nil => simp [nrun]
+  | cons c cs ih => simp [nrun, ih, List.append_assoc]
+
+theorem nrun_mode (P : Char → Bool) (s : NS) (x : Str) : (nrun P s x).2.mode = mrun s.mode x := by
+  induction x generalizing s with
+  | nil => simp [nrun, mrun]
+  | cons c cs ih =>
+    simp only [nrun, mrun, ih]
+    congr 1
+    simp only [nstep]
+    split
+    · split
+      · rfl
+      · split <;> rfl
+    · rfl
+
+theorem flat_mrun (m : Mode) (x : Str) (h : flatFrom m x = true) : mrun m x = .normal := by
   induction x generalizing m with
-  | nil =>
-    simp only [flatFrom, beq_iff_eq] at h
-    subst h; simp [sqFrom]
+  | nil => simpa [flatFrom, mrun] using h
   | cons c cs ih =>
-    simp only [flatFrom, Bool.and_eq_true, Bool.not_eq_true'] at h
-    simp only [List.cons_append, scanSeg, h.1, Bool.false_eq_true, if_false, ih _ h.2, sqFrom]
-    split <;> simp
+    simp only [flatFrom, Bool.and_eq_true] at h
+    simpa [mrun] using ih _ h.2
 
-theorem ws_flat (w : Str) (h : allWs w = true) : flatFrom .normal w = true ∧ sqFrom .normal w = [] := by
+/-- whitespace after punctuation / at the start is ignored -/
+theorem nrun_ws_idle (P : Char → Bool) (s : NS) (w : Str) (hw : allWs w = true) (hm : s.mode = .normal)
+    (hk : s.k ≠ .word) (hp : s.pend = false) : nrun P s w = ([], s) := by
   induction w with
-  | nil => simp [flatFrom, sqFrom]
+  | nil => simp [nrun]
   | cons c cs ih =>
-    simp only [allWs, List.all_cons, Bool.and_eq_true] at h
-    have hc : c = ' ' ∨ c = '\n' := by simpa [isWsC] using h.1
-    have := ih (by simpa [allWs] using h.2)
-    rcases hc with e | e <;> subst e <;>
-      simp [flatFrom, sqFrom, Mode.isTop, structural, isWsC, mstep, mstepN, this]
+    simp only [allWs, List.all_cons, Bool.and_eq_true] at hw
+    obtain ⟨m, k, p⟩ := s
+    simp only at hm hk hp
+    subst hm; subst hp
+    have hc : c = ' ' ∨ c = '\n' := by simpa [isWsC] using hw.1
+    have hms : mstep .normal c = .normal := by rcases hc with e | e <;> subst e <;> simp [mstep, mstepN]
+    have hkk : (k == Kind.word) = false := by cases k <;> simp_all
+    have := ih (by simpa [allWs] using hw.2)
+    simp [nrun, nstep, Mode.isTop, hw.1, hms, hkk, this]
 
-theorem scanSeg_ws (w rest : Str) (h : allWs w = true) : scanSeg .normal (w ++ rest) = scanSeg .normal rest := by
-  have := ws_flat w h
-  rw [scanSeg_flat _ _ _ this.1, this.2]; simp
+/-- whitespace in general: no output, only the pending flag may be set -/
+theorem nrun_ws (P : Char → Bool) (s : NS) (w : Str) (hw : allWs w = true) (hm : s.mode = .normal) :
+    ∃ p, nrun P s w = ([], ⟨.normal, s.k, p⟩) := by
+  induction w generalizing s with
+  | nil => exact ⟨s.pend, by obtain ⟨m, k, p⟩ := s; simp at hm; subst hm; simp [nrun]⟩
+  | cons c cs ih =>
+    simp only [allWs, List.all_cons, Bool.and_eq_true] at hw
+    obtain ⟨m, k, p⟩ := s
+    simp only at hm; subst hm
+    have hc : c = ' ' ∨ c = '\n' := by simpa [isWsC] using hw.1
+    have hms : mstep .normal c = .normal := by rcases hc with e | e <;> subst e <;> simp [mstep, mstepN]
+    obtain ⟨p', hp'⟩ := ih ⟨.normal, k, p || k == .word⟩ (by simpa [allWs] using hw.2) rfl
+    exact ⟨p', by simp [nrun, nstep, Mode.isTop, hw.1, hms, hp']⟩
 
-/-! ### `Reads`: what `readNodes` returns for every sufficient fuel -/
+/-- a punctuation character cancels whatever was pending -/
+theorem nrun_punct (P : Char → Bool) (k : Kind) (p : Bool) (c : Char) (hP : P c = true) (hw : isWsC c = false) :
+    nrun P ⟨.normal, k, p⟩ [c] = ([c], ⟨mstep .normal c, .punct, false⟩) := by
+  simp [nrun, nstep, Mode.isTop, hP, hw]
 
-def Reads (top : Bool) (text : Str) (ns : RNodes) (rest : Str) : Prop :=
-  rest.length ≤ text.length ∧ ∀ f, text.length < f → readNodes f top text = some (ns, rest)
-
-theorem readNodes_skip (f : Nat) (top : Bool) (a b : Str) (h : skipWs a = skipWs b) :
-    readNodes f top a = readNodes f top b := by
-  cases f with
-  | zero => rfl
-  | succ f => simp only [readNodes, h]
-
-theorem skipWs_allWs (w : Str) (h : allWs w = true) : skipWs w = [] := by
-  have := skipWs_ws w [] h
-  simpa [skipWs] using this
-
-theorem reads_ws (top : Bool) (w x : Str) (ns : RNodes) (rest : Str) (hw : allWs w = true)
-    (h : Reads top x ns rest) : Reads top (w ++ x) ns rest := by
-  refine ⟨by have := h.1; simp; omega, fun f hf => ?_⟩
-  rw [readNodes_skip f top (w ++ x) x (skipWs_ws w x hw)]
-  exact h.2 f (by simp at hf; omega)
-
-theorem reads_eof (w : Str) (hw : allWs w = true) : Reads true w .nil [] := by
-  refine ⟨by simp, fun f hf => ?_⟩
-  cases f with
-  | zero => omega
-  | succ f => simp [readNodes, skipWs_allWs w hw]
 
 theorem hdr_start (H y : Str) (h : headOk H = true) :
     skipWs (H ++ y) = H ++ y ∧ (H ++ y).isEmpty = false ∧ startsWith (H ++ y) ['/', '*'] = false := by
@@ -96,60 +107,6 @@ theorem hdr_start (H y : Str) (h : headOk H = true) :
     simp only [startsWith, List.cons_append, List.isPrefixOf, Bool.and_eq_false_imp, beq_iff_eq]
     intro e; exact absurd e.symm h.1
 
-theorem scanSeg_delim (c : Char) (r : Str) (h : structural c = true) :
-    scanSeg .normal (c :: r) = ([], delimOf c, r) := by
-  simp [scanSeg, Mode.isTop, h]
-
-theorem reads_close (rest : Str) : Reads false ('}' :: rest) .nil rest := by
-  refine ⟨by simp, fun f hf => ?_⟩
-  cases f with
-  | zero => omega
-  | succ f =>
-    have : scanSeg .normal ('}' :: rest) = ([], .cls, rest) := by
-      rw [scanSeg_delim _ _ (by decide)]; rfl
-    simp [readNodes, skipWs, isWsC, startsWith, List.isPrefixOf, this, consItem]
-
-theorem reads_item_semi (top : Bool) (H more : Str) (ns : RNodes) (rest : Str) (hH : hdrOk H = true)
-    (h : Reads top more ns rest) : Reads top (H ++ ';' :: more) (consItem (sq H) ns) rest := by
-  simp only [hdrOk, Bool.and_eq_true] at hH
-  refine ⟨by have := h.1; simp; omega, fun f hf => ?_⟩
-  cases f with
-  | zero => omega
-  | succ f =>
-    obtain ⟨e1, e2, e3⟩ := hdr_start H (';' :: more) hH.2
-    have sc : scanSeg .normal (H ++ ';' :: more) = (sq H, .semi, more) := by
-      rw [scanSeg_flat _ _ _ hH.1, scanSeg_delim _ _ (by decide)]; simp [sq, delimOf]
-    have hr := h.2 f (by simp at hf; omega)
-    simp [readNodes, e1, e2, e3, sc, hr]
-
-theorem reads_item_close (H w rest : Str) (hH : hdrOk H = true) (hw : allWs w = true) :
-    Reads false (H ++ w ++ '}' :: rest) (consItem (sq H) .nil) rest := by
-  simp only [hdrOk, Bool.and_eq_true] at hH
-  refine ⟨by simp; omega, fun f hf => ?_⟩
-  cases f with
-  | zero => omega
-  | succ f =>
-    obtain ⟨e1, e2, e3⟩ := hdr_start H (w ++ '}' :: rest) hH.2
-    have sc : scanSeg .normal (H ++ (w ++ '}' :: rest)) = (sq H, .cls, rest) := by
-      rw [scanSeg_flat _ _ _ hH.1, scanSeg_ws _ _ hw, scanSeg_delim _ _ (by decide)]; simp [sq, delimOf]
-    simp only [List.append_assoc] at *
-    simp [readNodes, e1, e2, e3, sc]
-
-theorem reads_block (top : Bool) (H w K M : Str) (kids ns : RNodes) (rest : Str) (hH : hdrOk H = true)
-    (hw : allWs w = true) (hk : Reads false K kids M) (hm : Reads top M ns rest) :
-    Reads top (H ++ w ++ '{' :: K) (.cons (.block (sq H) kids) ns) rest := by
-  simp only [hdrOk, Bool.and_eq_true] at hH
-  refine ⟨by have := hk.1; have := hm.1; simp; omega, fun f hf => ?_⟩
-  cases f with
-  | zero => omega
-  | succ f =>
-    obtain ⟨e1, e2, e3⟩ := hdr_start H (w ++ '{' :: K) hH.2
-    have sc : scanSeg .normal (H ++ (w ++ '{' :: K)) = (sq H, .opn, K) := by
-      rw [scanSeg_flat _ _ _ hH.1, scanSeg_ws _ _ hw, scanSeg_delim _ _ (by decide)]; simp [sq, delimOf]
-    have h1 := hk.2 f (by simp at hf; omega)
-    have h2 := hm.2 f (by have := hk.1; simp at hf; omega)
-    simp only [List.append_assoc] at *
-    simp [readNodes, e1, e2, e3, sc, h1, h2]
 
 theorem commentBody_append (b rest : Str) (h : commentBody b = some (b, [])) :
     commentBody (b ++ rest) = some (b, rest) := by
@@ -181,6 +138,7 @@ theorem commentBody_append (b rest : Str) (h : commentBody b = some (b, [])) :
       have hh : (r ++ rest).head? = r.head? := by cases r <;> simp_all
       simp [commentBody, hh, hc', this]
 
+
 theorem commentTok_shape (c : Str) (h : commentTok c = true) :
     ∃ b, c = '/' :: '*' :: b ∧ commentBody b = some (b, []) := by
   simp only [commentTok, beq_iff_eq] at h
@@ -196,6 +154,7 @@ theorem commentTok_shape (c : Str) (h : commentTok c = true) :
     exact ⟨r, rfl, hx⟩
   · simp at h
 
+
 theorem takeComment_append (c rest : Str) (h : commentTok c = true) :
     takeComment (c ++ rest) = some (c, rest) ∧ headOk c = false ∧ startsWith (c ++ rest) ['/', '*'] = true ∧
       skipWs (c ++ rest) = c ++ rest ∧ 2 ≤ c.length := by
@@ -203,6 +162,170 @@ theorem takeComment_append (c rest : Str) (h : commentTok c = true) :
   subst hb
   refine ⟨?_, by simp [headOk], by simp [startsWith, List.isPrefixOf], by simp [skipWs, isWsC], by simp⟩
   simp [takeComment, commentBody_append _ rest hx]
+
+
+theorem allWs_indent (st : Style) (n : Nat) : allWs (indentOut st n) = true := by
+  unfold indentOut; split <;> simp [allWs, spaces, isWsC]
+
+
+theorem allWs_optNl (st : Style) : allWs (optNl st) = true := by
+  cases st <;> simp [optNl, Style.isCompressed, allWs, isWsC]
+
+
+theorem allWs_append (a b : Str) (ha : allWs a = true) (hb : allWs b = true) : allWs (a ++ b) = true := by
+  simp_all [allWs]
+
+
+theorem not_invisible_of_written (st : Style) (ind : Nat) (s : Stmt) (h : (visitStmt st ind s).1 = true) :
+    s.isInvisible = false := by
+  cases hi : s.isInvisible
+  · rfl
+  · rw [visit_invisible st ind s hi] at h; simp at h
+
+
+theorem allWs_nil : allWs [] = true := rfl
+
+
+theorem childrenLoop_cons (st : Style) (ind : Nat) (s : Stmt) (ss : Stmts) :
+    childrenLoop st ind (.cons s ss) =
+      (if (visitStmt st ind s).1 then
+        (visitStmt st ind s).2 ++ childSemi st ss.isNil s ++ optNl st
+       else []) ++ childrenLoop st ind ss := by
+  conv => lhs; unfold childrenLoop
+  cases ss <;> rfl
+
+
+theorem consOpt_comment (c : Str) (ns : RNodes) :
+    consOpt (if isLoud c then some (.comment c) else none) ns = consComment c ns := by
+  unfold consComment; split <;> simp [consOpt]
+
+
+theorem skipWs_allWs (w : Str) (h : allWs w = true) : skipWs w = [] := by
+  have := skipWs_ws w [] h
+  simpa [skipWs] using this
+
+
+theorem ws_flat (w : Str) (h : allWs w = true) : flatFrom .normal w = true ∧ sqFrom .normal w = [] := by
+  induction w with
+  | nil => simp [flatFrom, sqFrom]
+  | cons c cs ih =>
+    simp only [allWs, List.all_cons, Bool.and_eq_true] at h
+    have hc : c = ' ' ∨ c = '\n' := by simpa [isWsC] using h.1
+    have := ih (by simpa [allWs] using h.2)
+    rcases hc with e | e <;> subst e <;>
+      simp [flatFrom, sqFrom, Mode.isTop, structural, isWsC, mstep, mstepN, this]
+
+
+
+theorem scanSeg_flat (m : Mode) (x rest : Str) (h : flatFrom m x = true) :
+    scanSeg m (x ++ rest) =
+      (x ++ (scanSeg .normal rest).1, (scanSeg .normal rest).2.1, (scanSeg .normal rest).2.2) := by
+  induction x generalizing m with
+  | nil =>
+    simp only [flatFrom, beq_iff_eq] at h
+    subst h; simp
+  | cons c cs ih =>
+    simp only [flatFrom, Bool.and_eq_true, Bool.not_eq_true'] at h
+    simp only [List.cons_append, scanSeg, h.1, Bool.false_eq_true, if_false, ih _ h.2]
+
+theorem scanSeg_ws (w rest : Str) (h : allWs w = true) :
+    scanSeg .normal (w ++ rest) = (w ++ (scanSeg .normal rest).1, (scanSeg .normal rest).2.1, (scanSeg .normal rest).2.2) :=
+  scanSeg_flat _ _ _ (ws_flat w h).1
+
+theorem nm_trailing_ws (P : Char → Bool) (H w : Str) (hH : flat H = true) (hw : allWs w = true) :
+    nm P (H ++ w) = nm P H := by
+  simp only [nm, nrun_append]
+  have hm : (nrun P NS.init H).2.mode = .normal := by rw [nrun_mode]; exact flat_mrun _ _ hH
+  obtain ⟨p, hp⟩ := nrun_ws P _ w hw hm
+  rw [hp]; simp
+
+theorem nm_hdr_ne (P : Char → Bool) (H : Str) (h : hdrOk H = true) : (nm P H).isEmpty = false := by
+  simp only [hdrOk, Bool.and_eq_true] at h
+  cases H with
+  | nil => simp [headOk] at h
+  | cons c cs =>
+    have := h.2
+    simp only [headOk, Bool.and_eq_true, Bool.not_eq_true'] at this
+    simp only [nm, nrun, nstep, NS.init, Mode.isTop, this.2, Bool.false_eq_true, if_false, if_true]
+    split <;> simp
+
+/-! ### `Reads`: what `readNodes` returns for every sufficient fuel -/
+
+def Reads (top : Bool) (text : Str) (ns : RNodes) (rest : Str) : Prop :=
+  rest.length ≤ text.length ∧ ∀ f, text.length < f → readNodes f top text = some (ns, rest)
+
+theorem readNodes_skip (f : Nat) (top : Bool) (a b : Str) (h : skipWs a = skipWs b) :
+    readNodes f top a = readNodes f top b := by
+  cases f with
+  | zero => rfl
+  | succ f => simp only [readNodes, h]
+
+theorem reads_ws (top : Bool) (w x : Str) (ns : RNodes) (rest : Str) (hw : allWs w = true)
+    (h : Reads top x ns rest) : Reads top (w ++ x) ns rest := by
+  refine ⟨by have := h.1; simp; omega, fun f hf => ?_⟩
+  rw [readNodes_skip f top (w ++ x) x (skipWs_ws w x hw)]
+  exact h.2 f (by simp at hf; omega)
+
+theorem reads_eof (w : Str) (hw : allWs w = true) : Reads true w .nil [] := by
+  refine ⟨by simp, fun f hf => ?_⟩
+  cases f with
+  | zero => omega
+  | succ f => simp [readNodes, skipWs_allWs w hw]
+
+theorem scanSeg_delim (c : Char) (r : Str) (h : structural c = true) :
+    scanSeg .normal (c :: r) = ([], delimOf c, r) := by
+  simp [scanSeg, Mode.isTop, h]
+
+theorem reads_close (rest : Str) : Reads false ('}' :: rest) .nil rest := by
+  refine ⟨by simp, fun f hf => ?_⟩
+  cases f with
+  | zero => omega
+  | succ f =>
+    have : scanSeg .normal ('}' :: rest) = ([], .cls, rest) := by
+      rw [scanSeg_delim _ _ (by decide)]; rfl
+    simp [readNodes, skipWs, isWsC, startsWith, List.isPrefixOf, this, consItem]
+
+theorem reads_item_semi (top : Bool) (H more : Str) (ns : RNodes) (rest : Str) (hH : hdrOk H = true)
+    (h : Reads top more ns rest) : Reads top (H ++ ';' :: more) (consItem (nm Pitem H) ns) rest := by
+  simp only [hdrOk, Bool.and_eq_true] at hH
+  refine ⟨by have := h.1; simp; omega, fun f hf => ?_⟩
+  cases f with
+  | zero => omega
+  | succ f =>
+    obtain ⟨e1, e2, e3⟩ := hdr_start H (';' :: more) hH.2
+    have sc : scanSeg .normal (H ++ ';' :: more) = (H, .semi, more) := by
+      rw [scanSeg_flat _ _ _ hH.1, scanSeg_delim _ _ (by decide)]; simp [delimOf]
+    have hr := h.2 f (by simp at hf; omega)
+    simp [readNodes, e1, e2, e3, sc, hr]
+
+theorem reads_item_close (H w rest : Str) (hH : hdrOk H = true) (hw : allWs w = true) :
+    Reads false (H ++ w ++ '}' :: rest) (consItem (nm Pitem H) .nil) rest := by
+  simp only [hdrOk, Bool.and_eq_true] at hH
+  refine ⟨by simp; omega, fun f hf => ?_⟩
+  cases f with
+  | zero => omega
+  | succ f =>
+    obtain ⟨e1, e2, e3⟩ := hdr_start H (w ++ '}' :: rest) hH.2
+    have sc : scanSeg .normal (H ++ (w ++ '}' :: rest)) = (H ++ w, .cls, rest) := by
+      rw [scanSeg_flat _ _ _ hH.1, scanSeg_ws _ _ hw, scanSeg_delim _ _ (by decide)]; simp [delimOf]
+    simp only [List.append_assoc] at *
+    simp [readNodes, e1, e2, e3, sc, nm_trailing_ws Pitem H w hH.1 hw]
+
+theorem reads_block (top : Bool) (H w K M : Str) (kids ns : RNodes) (rest : Str) (hH : hdrOk H = true)
+    (hw : allWs w = true) (hk : Reads false K kids M) (hm : Reads top M ns rest) :
+    Reads top (H ++ w ++ '{' :: K) (.cons (.block (nm Ppre H) kids) ns) rest := by
+  simp only [hdrOk, Bool.and_eq_true] at hH
+  refine ⟨by have := hk.1; have := hm.1; simp; omega, fun f hf => ?_⟩
+  cases f with
+  | zero => omega
+  | succ f =>
+    obtain ⟨e1, e2, e3⟩ := hdr_start H (w ++ '{' :: K) hH.2
+    have sc : scanSeg .normal (H ++ (w ++ '{' :: K)) = (H ++ w, .opn, K) := by
+      rw [scanSeg_flat _ _ _ hH.1, scanSeg_ws _ _ hw, scanSeg_delim _ _ (by decide)]; simp [delimOf]
+    have h1 := hk.2 f (by simp at hf; omega)
+    have h2 := hm.2 f (by have := hk.1; simp at hf; omega)
+    simp only [List.append_assoc] at *
+    simp [readNodes, e1, e2, e3, sc, h1, h2, nm_trailing_ws Ppre H w hH.1 hw]
 
 theorem reads_comment (top : Bool) (c more : Str) (ns : RNodes) (rest : Str) (hc : commentTok c = true)
     (h : Reads top more ns rest) : Reads top (c ++ more) (consComment c ns) rest := by
@@ -217,32 +340,9 @@ theorem reads_comment (top : Bool) (c more : Str) (ns : RNodes) (rest : Str) (hc
 
 /-! ### the serializer's statements, read back -/
 
-theorem sq_hdr_ne (H : Str) (h : hdrOk H = true) : (sq H).isEmpty = false := by
-  simp only [hdrOk, Bool.and_eq_true] at h
-  cases H with
-  | nil => simp [headOk] at h
-  | cons c cs =>
-    have := h.2
-    simp only [headOk, Bool.and_eq_true, Bool.not_eq_true'] at this
-    simp [sq, sqFrom, Mode.isTop, this.2]
-
-theorem consItem_hdr (H : Str) (ns : RNodes) (h : hdrOk H = true) : consItem (sq H) ns = .cons (.item (sq H)) ns := by
-  simp [consItem, sq_hdr_ne H h]
-
-theorem allWs_indent (st : Style) (n : Nat) : allWs (indentOut st n) = true := by
-  unfold indentOut; split <;> simp [allWs, spaces, isWsC]
-
-theorem allWs_optNl (st : Style) : allWs (optNl st) = true := by
-  cases st <;> simp [optNl, Style.isCompressed, allWs, isWsC]
-
-theorem allWs_append (a b : Str) (ha : allWs a = true) (hb : allWs b = true) : allWs (a ++ b) = true := by
-  simp_all [allWs]
-
-theorem not_invisible_of_written (st : Style) (ind : Nat) (s : Stmt) (h : (visitStmt st ind s).1 = true) :
-    s.isInvisible = false := by
-  cases hi : s.isInvisible
-  · rfl
-  · rw [visit_invisible st ind s hi] at h; simp at h
+theorem consItem_hdr (H : Str) (ns : RNodes) (h : hdrOk H = true) :
+    consItem (nm Pitem H) ns = .cons (.item (nm Pitem H)) ns := by
+  simp [consItem, nm_hdr_ne Pitem H h]
 
 theorem canon_invisible (st : Style) (s : Stmt) (h : s.isInvisible = true) : canonStmt st s = none := by
   cases s with
@@ -258,7 +358,7 @@ theorem canon_invisible (st : Style) (s : Stmt) (h : s.isInvisible = true) : can
 /-- Statements that end with `;`: their rendering is indentation + one flat header text. -/
 theorem item_shape (st : Style) (ind : Nat) (s : Stmt) (hs : s.requiresSemicolon = true)
     (hw : (visitStmt st ind s).1 = true) (hr : s.readable st = true) :
-    ∃ H, hdrOk H = true ∧ (visitStmt st ind s).2 = indentOut st ind ++ H ∧ canonStmt st s = some (.item (sq H)) := by
+    ∃ H, hdrOk H = true ∧ (visitStmt st ind s).2 = indentOut st ind ++ H ∧ canonStmt st s = some (.item (nm Pitem H)) := by
   have hv := not_invisible_of_written st ind s hw
   cases s with
   | rule ge sel body => simp [Stmt.requiresSemicolon] at hs
@@ -289,7 +389,7 @@ theorem block_reads (st : Style) (ind : Nat) (top : Bool) (H K more : Str) (kids
     (hH : hdrOk H = true)
     (hk : Reads false (K ++ (indentOut st ind ++ '}' :: more)) kids more)
     (hm : Reads top more ns rest) :
-    Reads top (indentOut st ind ++ H ++ blockOut st ind K ++ more) (.cons (.block (sq H) kids) ns) rest := by
+    Reads top (indentOut st ind ++ H ++ blockOut st ind K ++ more) (.cons (.block (nm Ppre H) kids) ns) rest := by
   cases st
   · have e : indentOut .expanded ind ++ H ++ blockOut .expanded ind K ++ more =
         indentOut .expanded ind ++ (H ++ [' '] ++ '{' :: (['\n'] ++ (K ++ (indentOut .expanded ind ++ '}' :: more)))) := by
@@ -303,18 +403,6 @@ theorem block_reads (st : Style) (ind : Nat) (top : Bool) (H K more : Str) (kids
       simp [blockOut, openBlock, closeBlock, Style.isCompressed, List.append_assoc]
     rw [e]
     exact reads_ws _ _ _ _ _ (allWs_indent _ _) (reads_block top H [] _ more kids ns rest hH (by decide) hk hm)
-
-theorem childrenLoop_cons (st : Style) (ind : Nat) (s : Stmt) (ss : Stmts) :
-    childrenLoop st ind (.cons s ss) =
-      (if (visitStmt st ind s).1 then
-        (visitStmt st ind s).2 ++ childSemi st ss.isNil s ++ optNl st
-       else []) ++ childrenLoop st ind ss := by
-  conv => lhs; unfold childrenLoop
-  cases ss <;> rfl
-
-theorem consOpt_comment (c : Str) (ns : RNodes) :
-    consOpt (if isLoud c then some (.comment c) else none) ns = consComment c ns := by
-  unfold consComment; split <;> simp [consOpt]
 
 mutual
 theorem stmt_reads (st : Style) : ∀ (s : Stmt) (ind : Nat) (top : Bool) (more : Str) (ns : RNodes) (rest : Str),
@@ -369,7 +457,7 @@ theorem stmt_reads (st : Style) : ∀ (s : Stmt) (ind : Nat) (top : Bool) (more 
       by_cases ha : body.allInvisible = true
       · simp only [ha, if_true]
         have hb : Reads top (indentOut st ind ++ (unknownPrelude name params ++ [' '] ++ '{' :: ('}' :: more)))
-            (.cons (.block (sq (unknownPrelude name params)) .nil) ns) rest :=
+            (.cons (.block (nm Ppre (unknownPrelude name params)) .nil) ns) rest :=
           reads_ws _ _ _ _ _ (allWs_indent _ _)
             (reads_block top _ [' '] _ more .nil ns rest hr.1 (by decide) (reads_close more) hm)
         have e : lit " {}" = [' ', '{', '}'] := by decide
@@ -476,8 +564,10 @@ def topText (st : Style) : Bool → Bool → List Stmt → Str
 theorem isEmpty_append' {α} (a b : List α) : (a ++ b).isEmpty = (a.isEmpty && b.isEmpty) := by
   cases a <;> simp
 
+
 theorem isEmpty_of_ne' {α} {l : List α} (h : ¬ l = []) : l.isEmpty = false := by
   cases l <;> simp_all
+
 
 theorem finish_topText (st : Style) (t : List Stmt) (T : Top) :
     finish st false (topLoop st T t) =
@@ -498,10 +588,37 @@ theorem finish_topText (st : Style) (t : List Stmt) (T : Top) :
         cases hq : s.requiresSemicolon <;>
         simp_all [visitGroup, List.append_assoc, isEmpty_append', isEmpty_of_ne']
 
+
 theorem serialize_topText (st : Style) (t : List Stmt) : serialize st false t = topText st true false t := by
   simp [serialize, finish_topText, Top.init]
 
-theorem allWs_nil : allWs [] = true := rfl
+
+theorem finish_header (st : Style) (cs : Bool) (T : Top) :
+    finish st cs T = finish st false T ∨ finish st cs T = bom :: finish st false T ∨
+      finish st cs T = charsetPrefix ++ finish st false T := by
+  unfold finish
+  cases cs <;> cases T.buf.any isNonAscii <;> cases st <;> simp [Style.isCompressed]
+
+
+theorem stripHeader_serialize (st : Style) (cs : Bool) (t : List Stmt)
+    (hg : hasCharsetOrBom (serialize st false t) = false) :
+    stripHeader (serialize st cs t) = serialize st false t := by
+  have hself : stripHeader (serialize st false t) = serialize st false t := by
+    simp only [hasCharsetOrBom, Bool.or_eq_false_iff, decide_eq_false_iff_not] at hg
+    simp [stripHeader, hg.1, hg.2]
+  unfold serialize at *
+  rcases finish_header st cs (topLoop st Top.init t) with h | h | h
+  · rw [h]; exact hself
+  · rw [h]
+    have : startsWith (bom :: finish st false (topLoop st Top.init t)) charsetPrefix = false := by
+      have hne : ('@' : Char) ≠ bom := by decide
+      have hcp : charsetPrefix = '@' :: charsetPrefix.drop 1 := by decide
+      rw [hcp]
+      simp [startsWith, List.isPrefixOf, hne]
+    simp [stripHeader, this]
+  · rw [h]
+    simp [stripHeader, startsWith, List.prefix_append]
+
 
 theorem top_reads (st : Style) (t : List Stmt) (e pg : Bool) (h : treeReadable st t = true) :
     Reads true (topText st e pg t) (canonTop st t) [] := by
@@ -530,31 +647,6 @@ theorem top_reads (st : Style) (t : List Stmt) (e pg : Bool) (h : treeReadable s
       simpa [List.append_assoc] using reads_ws _ _ _ _ _ hws this
 
 /-! ### header -/
-
-theorem finish_header (st : Style) (cs : Bool) (T : Top) :
-    finish st cs T = finish st false T ∨ finish st cs T = bom :: finish st false T ∨
-      finish st cs T = charsetPrefix ++ finish st false T := by
-  unfold finish
-  cases cs <;> cases T.buf.any isNonAscii <;> cases st <;> simp [Style.isCompressed]
-
-theorem stripHeader_serialize (st : Style) (cs : Bool) (t : List Stmt)
-    (hg : hasCharsetOrBom (serialize st false t) = false) :
-    stripHeader (serialize st cs t) = serialize st false t := by
-  have hself : stripHeader (serialize st false t) = serialize st false t := by
-    simp only [hasCharsetOrBom, Bool.or_eq_false_iff, decide_eq_false_iff_not] at hg
-    simp [stripHeader, hg.1, hg.2]
-  unfold serialize at *
-  rcases finish_header st cs (topLoop st Top.init t) with h | h | h
-  · rw [h]; exact hself
-  · rw [h]
-    have : startsWith (bom :: finish st false (topLoop st Top.init t)) charsetPrefix = false := by
-      have hne : ('@' : Char) ≠ bom := by decide
-      have hcp : charsetPrefix = '@' :: charsetPrefix.drop 1 := by decide
-      rw [hcp]
-      simp [startsWith, List.isPrefixOf, hne]
-    simp [stripHeader, this]
-  · rw [h]
-    simp [stripHeader, startsWith, List.prefix_append]
 
 /-- print → read round trip: the reader returns the canonical tree of every readable tree. -/
 theorem readTree_serialize (st : Style) (cs : Bool) (t : List Stmt) (h : treeReadable st t = true)
@@ -724,10 +816,21 @@ theorem FS_selectorLoop (st : Style) (first : Bool) (l : List Complex)
         simpa using this
     exact FS_append (FS_append hsep (FS_complexOut st none cx.comps h.1)) (ih false h.2)
 
+theorem compOk_flat' (c : Component) (h : compOk c = true) : flat c.out = true := by
+  cases c with
+  | comb ch =>
+    have : (ch = '>' ∨ ch = '+') ∨ ch = '~' := by simpa [compOk, combOk] using h
+    rcases this with (e | e) | e <;> subst e <;> decide
+  | compound ss => exact h
+
 theorem sel_indep (sel : Selector) (h : selG sel = true) (st : Style) :
     hdrOk (rulePrelude st sel) = true ∧ sq (rulePrelude st sel) = selLoopK true (sel.filter (fun c => !c.isInvisible)) := by
   simp only [selG, Bool.and_eq_true] at h
-  have := FS_selectorLoop st true _ h.1.1
+  have hflat : (sel.filter (fun c => !c.isInvisible)).all (fun cx => cx.comps.all (fun c => flat c.out)) = true := by
+    have := h.1.1
+    simp only [List.all_eq_true] at *
+    exact fun cx hcx c hc => compOk_flat' c (this cx hcx c hc)
+  have := FS_selectorLoop st true _ hflat
   refine ⟨?_, this.2⟩
   simp only [hdrOk, Bool.and_eq_true, rulePrelude]
   exact ⟨this.1, by cases st; exact h.1.2; exact h.2⟩
@@ -865,6 +968,328 @@ theorem media_indep (qs : List Query) (h : (qs.map queryOut).all flat = true) (s
   have e : lit "@media " = '@' :: (lit "@media ").drop 1 := by decide
   rw [e]; simp [headOk, isWsC]
 
+/-! ### equal runs -/
+
+def EqRun (P : Char → Bool) (a b : Str) : Prop := ∀ s : NS, s.mode = .normal → nrun P s a = nrun P s b
+def EndsN (a : Str) : Prop := mrun .normal a = .normal
+
+instance (a : Str) : Decidable (EndsN a) := by unfold EndsN; infer_instance
+
+theorem mrun_append (m : Mode) (a b : Str) : mrun m (a ++ b) = mrun (mrun m a) b := by
+  induction a generalizing m with
+  | nil => rfl
+  | cons c cs ih => simp [mrun, ih]
+
+theorem EndsN_append {a b : Str} (ha : EndsN a) (hb : EndsN b) : EndsN (a ++ b) := by
+  simp only [EndsN, mrun_append] at *; rw [ha, hb]
+
+theorem EndsN_nil : EndsN [] := rfl
+theorem EndsN_flat {x : Str} (h : flat x = true) : EndsN x := flat_mrun _ _ h
+theorem EndsN_ws {w : Str} (h : allWs w = true) : EndsN w := EndsN_flat (ws_flat w h).1
+
+theorem EqRun_refl (P : Char → Bool) (a : Str) : EqRun P a a := fun _ _ => rfl
+
+theorem EqRun_append {P : Char → Bool} {a a' b b' : Str} (h1 : EqRun P a a') (ha : EndsN a) (h2 : EqRun P b b') :
+    EqRun P (a ++ b) (a' ++ b') := by
+  intro s hs
+  rw [nrun_append, nrun_append, h1 s hs]
+  have hm : (nrun P s a').2.mode = .normal := by
+    rw [← h1 s hs, nrun_mode, hs]; exact ha
+  rw [h2 _ hm]
+
+/-- optional whitespace after a punctuation character -/
+theorem EqRun_after (P : Char → Bool) (p : Char) (w : Str) (hP : P p = true) (hnw : isWsC p = false)
+    (hm : mstep .normal p = .normal) (hw : allWs w = true) : EqRun P (p :: w) [p] := by
+  intro s hs
+  obtain ⟨m, k, pd⟩ := s
+  simp only at hs; subst hs
+  have e : p :: w = [p] ++ w := rfl
+  rw [e, nrun_append, nrun_punct P k pd p hP hnw, hm]
+  have := nrun_ws_idle P ⟨.normal, .punct, false⟩ w hw rfl (by simp) rfl
+  simp [this]
+
+/-- optional whitespace before a punctuation character -/
+theorem EqRun_before (P : Char → Bool) (p : Char) (w : Str) (hP : P p = true) (hnw : isWsC p = false)
+    (hw : allWs w = true) : EqRun P (w ++ [p]) [p] := by
+  intro s hs
+  obtain ⟨m, k, pd⟩ := s
+  simp only at hs; subst hs
+  obtain ⟨p', hp'⟩ := nrun_ws P ⟨.normal, k, pd⟩ w hw rfl
+  rw [nrun_append, hp', nrun_punct P k p' p hP hnw, nrun_punct P k pd p hP hnw]
+  simp
+
+theorem nrun_slash_start (P : Char → Bool) (k : Kind) (pd : Bool) (c : Char) (cs : Str) (hc : c ≠ '*') :
+    nrun P ⟨.slash, k, pd⟩ (c :: cs) = nrun P ⟨.normal, k, pd⟩ (c :: cs) := by
+  simp [nrun, nstep, Mode.isTop, mstep, hc]
+
+/-! ### selectors -/
+
+
+theorem comb_facts (c : Char) (h : combOk c = true) :
+    Ppre c = true ∧ isWsC c = false ∧ mstep .normal c = .normal := by
+  have : (c = '>' ∨ c = '+') ∨ c = '~' := by simpa [combOk] using h
+  rcases this with (e | e) | e <;> subst e <;> decide
+
+def spOf (st : Style) (last : Option Component) (c : Component) : Str :=
+  match last with
+  | some l => if !omitSpaces st l && !omitSpaces st c then [' '] else []
+  | none => []
+
+theorem complexOut_cons (st : Style) (last : Option Component) (c : Component) (r : List Component) :
+    complexOut st last (c :: r) = (spOf st last c ++ c.out) ++ complexOut st (some c) r := by
+  cases last <;> simp [complexOut, spOf]
+
+theorem spOf_none (st : Style) (c : Component) : spOf st none c = [] := rfl
+theorem spOf_exp (l c : Component) : spOf .expanded (some l) c = [' '] := by
+  simp [spOf, omitSpaces, Style.isCompressed]
+theorem spOf_comp (l c : Component) : spOf .compressed (some l) c = if l.isComb || c.isComb then [] else [' '] := by
+  cases hl : l.isComb <;> cases hc : c.isComb <;> simp [spOf, omitSpaces, Style.isCompressed, hl, hc]
+
+theorem piece_eq (last : Option Component) (c : Component) (hc : compOk c = true) (k : Kind) (pd : Bool)
+    (hl : ∀ l, last = some l → l.isComb = true → k = .punct ∧ pd = false) :
+    nrun Ppre ⟨.normal, k, pd⟩ (spOf .expanded last c ++ c.out) =
+      nrun Ppre ⟨.normal, k, pd⟩ (spOf .compressed last c ++ c.out) ∧
+    (nrun Ppre ⟨.normal, k, pd⟩ (spOf .expanded last c ++ c.out)).2.mode = .normal ∧
+    (c.isComb = true → (nrun Ppre ⟨.normal, k, pd⟩ (spOf .expanded last c ++ c.out)).2.k = .punct ∧
+      (nrun Ppre ⟨.normal, k, pd⟩ (spOf .expanded last c ++ c.out)).2.pend = false) := by
+  cases c with
+  | comb ch =>
+    obtain ⟨f1, f2, f3⟩ := comb_facts ch hc
+    have hp := nrun_punct Ppre k pd ch f1 f2
+    cases last with
+    | none => simp [spOf_none, Component.out, hp, f3]
+    | some l =>
+      have e := EqRun_before Ppre ch [' '] f1 f2 (by decide) ⟨.normal, k, pd⟩ rfl
+      simp only [spOf_exp, spOf_comp, Component.isComb, Bool.or_true, if_true, List.nil_append, Component.out]
+      rw [e]
+      simp [hp, f3]
+  | compound ss =>
+    have hf : flat (compoundOut ss) = true := hc
+    have hic : (Component.compound ss).isComb = false := rfl
+    have hout : (Component.compound ss).out = compoundOut ss := rfl
+    cases last with
+    | none =>
+      rw [spOf_none, spOf_none, hic, hout]
+      refine ⟨rfl, ?_, by simp⟩
+      rw [nrun_mode]; exact EndsN_flat hf
+    | some l =>
+      cases hlc : l.isComb
+      · rw [spOf_exp, spOf_comp, hlc, hic, hout]
+        refine ⟨by simp, ?_, by simp⟩
+        rw [nrun_mode]
+        exact EndsN_append (EndsN_ws (w := [' ']) (by decide)) (EndsN_flat hf)
+      · obtain ⟨hk, hp⟩ := hl l rfl hlc
+        subst hk; subst hp
+        rw [spOf_exp, spOf_comp, hlc, hic, hout]
+        have e : nrun Ppre ⟨.normal, .punct, false⟩ ([' '] ++ compoundOut ss) =
+            nrun Ppre ⟨.normal, .punct, false⟩ ([] ++ compoundOut ss) := by
+          rw [nrun_append, nrun_ws_idle Ppre _ [' '] (by decide) rfl (by simp) rfl]
+          simp
+        refine ⟨by simpa using e, ?_, by simp⟩
+        rw [e, nrun_mode]; exact EndsN_flat hf
+
+theorem complex_eq (cs : List Component) (h : cs.all compOk = true) :
+    ∀ (last : Option Component) (k : Kind) (pd : Bool),
+      (∀ l, last = some l → l.isComb = true → k = .punct ∧ pd = false) →
+      nrun Ppre ⟨.normal, k, pd⟩ (complexOut .expanded last cs) = nrun Ppre ⟨.normal, k, pd⟩ (complexOut .compressed last cs) ∧
+      (nrun Ppre ⟨.normal, k, pd⟩ (complexOut .expanded last cs)).2.mode = .normal := by
+  induction cs with
+  | nil => intro last k pd _; simp [complexOut, nrun]
+  | cons c r ih =>
+    intro last k pd hl
+    simp only [List.all_cons, Bool.and_eq_true] at h
+    obtain ⟨e1, hm1, hk1⟩ := piece_eq last c h.1 k pd hl
+    rw [complexOut_cons, complexOut_cons, nrun_append, nrun_append (a := spOf .compressed last c ++ c.out), ← e1]
+    generalize hs1 : (nrun Ppre ⟨.normal, k, pd⟩ (spOf .expanded last c ++ c.out)) = R at *
+    obtain ⟨o, ⟨m1, k1, p1⟩⟩ := R
+    simp only at hm1 hk1
+    subst hm1
+    have ihr := ih h.2 (some c) k1 p1 (by intro l hl' hc; cases hl'; exact hk1 hc)
+    exact ⟨by simp [ihr.1], by simpa using ihr.2⟩
+
+theorem EqRun_complex (cs : List Component) (h : cs.all compOk = true) :
+    EqRun Ppre (complexOut .expanded none cs) (complexOut .compressed none cs) ∧ EndsN (complexOut .expanded none cs) := by
+  refine ⟨?_, ?_⟩
+  · intro s hs
+    obtain ⟨m, k, pd⟩ := s
+    simp only at hs; subst hs
+    exact (complex_eq cs h none k pd (by intro l hl; cases hl)).1
+  · have := (complex_eq cs h none .start false (by intro l hl; cases hl)).2
+    rwa [nrun_mode] at this
+
+theorem EqRun_selectorLoop (first : Bool) (l : List Complex) (h : l.all (fun cx => cx.comps.all compOk) = true) :
+    EqRun Ppre (selectorLoop .expanded first l) (selectorLoop .compressed first l) ∧ EndsN (selectorLoop .expanded first l) := by
+  induction l generalizing first with
+  | nil => exact ⟨EqRun_refl _ _, EndsN_nil⟩
+  | cons cx r ih =>
+    simp only [List.all_cons, Bool.and_eq_true] at h
+    simp only [selectorLoop]
+    have hsep : EqRun Ppre (if first = true then [] else ',' :: (if cx.lineBreak = true then optNl .expanded else optSp .expanded))
+        (if first = true then [] else ',' :: (if cx.lineBreak = true then optNl .compressed else optSp .compressed)) ∧
+        EndsN (if first = true then [] else ',' :: (if cx.lineBreak = true then optNl .expanded else optSp .expanded)) := by
+      cases first
+      · have hw : allWs (if cx.lineBreak = true then optNl .expanded else optSp .expanded) = true := by split <;> decide
+        have hc : (if cx.lineBreak = true then optNl .compressed else optSp .compressed) = [] := by split <;> rfl
+        simp only [Bool.false_eq_true, if_false, hc]
+        exact ⟨EqRun_after Ppre ',' _ (by decide) (by decide) (by decide) hw,
+          EndsN_append (a := [',']) (by decide) (EndsN_ws hw)⟩
+      · exact ⟨EqRun_refl _ _, EndsN_nil⟩
+    obtain ⟨c1, c2⟩ := EqRun_complex cx.comps h.1
+    obtain ⟨r1, r2⟩ := ih false h.2
+    exact ⟨EqRun_append (EqRun_append hsep.1 hsep.2 c1) (EndsN_append hsep.2 c2) r1,
+      EndsN_append (EndsN_append hsep.2 c2) r2⟩
+
+/-! ### values -/
+
+theorem EqRun_slash (a b : Str) (ha : EndsN a) (hb : ∃ c cs, b = c :: cs ∧ c ≠ '*') :
+    EqRun Pitem (a ++ (' ' :: '/' :: ' ' :: b)) (a ++ '/' :: b) := by
+  refine EqRun_append (EqRun_refl _ a) ha ?_
+  obtain ⟨c, cs, e, hc⟩ := hb
+  subst e
+  intro s hs
+  obtain ⟨m, k, pd⟩ := s
+  simp only at hs; subst hs
+  have h1 : nrun Pitem ⟨.normal, k, pd⟩ (' ' :: '/' :: ' ' :: c :: cs) =
+      ('/' :: (nrun Pitem ⟨.normal, .punct, false⟩ (c :: cs)).1, (nrun Pitem ⟨.normal, .punct, false⟩ (c :: cs)).2) := by
+    have e : (' ' :: '/' :: ' ' :: c :: cs) = [' '] ++ (['/'] ++ ([' '] ++ (c :: cs))) := rfl
+    obtain ⟨p', hp'⟩ := nrun_ws Pitem ⟨.normal, k, pd⟩ [' '] (by decide) rfl
+    rw [e, nrun_append, hp', nrun_append, nrun_punct Pitem k p' '/' (by decide) (by decide), nrun_append]
+    have : nrun Pitem ⟨mstep .normal '/', .punct, false⟩ [' '] = ([], ⟨.normal, .punct, false⟩) := by
+      simp [nrun, nstep, Mode.isTop, mstep, mstepN, isWsC]
+    rw [this]; simp
+  have h2 : nrun Pitem ⟨.normal, k, pd⟩ ('/' :: c :: cs) =
+      ('/' :: (nrun Pitem ⟨.normal, .punct, false⟩ (c :: cs)).1, (nrun Pitem ⟨.normal, .punct, false⟩ (c :: cs)).2) := by
+    have e : ('/' :: c :: cs) = ['/'] ++ (c :: cs) := rfl
+    rw [e, nrun_append, nrun_punct Pitem k pd '/' (by decide) (by decide)]
+    have : mstep .normal '/' = .slash := by decide
+    rw [this, nrun_slash_start Pitem .punct false c cs hc]; simp
+  rw [h1, h2]
+
+theorem EqRun_listLoop (sep : Sep) (l : List Atom) (h : l.all Atom.g = true) :
+    EqRun Pitem (listLoop .expanded sep l) (listLoop .compressed sep l) ∧ EndsN (listLoop .expanded sep l) ∧
+      (l ≠ [] → ∃ c cs, listLoop .compressed sep l = c :: cs ∧ c ≠ '*') := by
+  induction l with
+  | nil => exact ⟨EqRun_refl _ _, EndsN_nil, fun h => absurd rfl h⟩
+  | cons a r ih =>
+    simp only [List.all_cons, Bool.and_eq_true] at h
+    obtain ⟨fa, c, cs, ea, hc⟩ := atom_props a h.1
+    have ha : EndsN a.out := EndsN_flat fa.1
+    cases r with
+    | nil => exact ⟨by simpa [listLoop] using EqRun_refl Pitem a.out, by simpa [listLoop] using ha,
+        fun _ => ⟨c, cs, by simpa [listLoop] using ea, hc⟩⟩
+    | cons b r' =>
+      obtain ⟨e1, e2, e3⟩ := ih h.2
+      obtain ⟨c', cs', er, hc'⟩ := e3 (by simp)
+      have hhead : ∃ x xs, listLoop .compressed sep (a :: b :: r') = x :: xs ∧ x ≠ '*' :=
+        ⟨c, cs ++ (sepOut .compressed sep ++ listLoop .compressed sep (b :: r')), by simp [listLoop, ea], hc⟩
+      simp only [listLoop]
+      cases sep with
+      | space =>
+        refine ⟨?_, ?_, fun _ => by simpa [listLoop] using hhead⟩
+        · exact EqRun_append (EqRun_refl _ _) (EndsN_append ha (EndsN_ws (w := [' ']) (by decide))) e1
+        · exact EndsN_append (EndsN_append ha (EndsN_ws (w := [' ']) (by decide))) e2
+      | comma =>
+        have hs : EqRun Pitem (sepOut .expanded .comma) (sepOut .compressed .comma) :=
+          EqRun_after Pitem ',' [' '] (by decide) (by decide) (by decide) (by decide)
+        have hse : EndsN (sepOut .expanded .comma) := by decide
+        refine ⟨?_, ?_, fun _ => by simpa [listLoop] using hhead⟩
+        · exact EqRun_append (EqRun_append (EqRun_refl _ _) ha hs) (EndsN_append ha hse) e1
+        · exact EndsN_append (EndsN_append ha hse) e2
+      | slash =>
+        refine ⟨?_, ?_, fun _ => by simpa [listLoop] using hhead⟩
+        · -- a ++ " / " ++ rest_E   vs   a ++ "/" ++ rest_C
+          intro s hs
+          have hE : a.out ++ sepOut .expanded .slash ++ listLoop .expanded .slash (b :: r') =
+              a.out ++ (' ' :: '/' :: ' ' :: listLoop .expanded .slash (b :: r')) := by
+            have : lit " / " = [' ', '/', ' '] := by decide
+            simp [sepOut, Style.isCompressed, this]
+          have hC : a.out ++ sepOut .compressed .slash ++ listLoop .compressed .slash (b :: r') =
+              a.out ++ ('/' :: listLoop .compressed .slash (b :: r')) := by
+            simp [sepOut, Style.isCompressed]
+          rw [hE, hC]
+          -- first replace the expanded tail by the compressed tail, then the separator
+          have step1 : EqRun Pitem (a.out ++ (' ' :: '/' :: ' ' :: listLoop .expanded .slash (b :: r')))
+              (a.out ++ (' ' :: '/' :: ' ' :: listLoop .compressed .slash (b :: r'))) := by
+            have t : ∀ x : Str, a.out ++ (' ' :: '/' :: ' ' :: x) = (a.out ++ [' ', '/', ' ']) ++ x := by intro x; simp
+            rw [t (listLoop .expanded .slash (b :: r')), t (listLoop .compressed .slash (b :: r'))]
+            exact EqRun_append (EqRun_refl _ _) (EndsN_append ha (by decide)) e1
+          rw [step1 s hs]
+          exact EqRun_slash a.out _ ha ⟨c', cs', er, hc'⟩ s hs
+        · have : EndsN (sepOut .expanded .slash) := by decide
+          exact EndsN_append (EndsN_append ha this) e2
+
+
+/-! ### style independence with the finer canonical text -/
+
+theorem nm_of_EqRun {P : Char → Bool} {a b : Str} (h : EqRun P a b) : nm P a = nm P b := by
+  simp only [nm, h NS.init rfl]
+
+theorem compOk_flat0 (c : Component) (h : compOk c = true) : flat c.out = true := by
+  cases c with
+  | comb ch =>
+    have : (ch = '>' ∨ ch = '+') ∨ ch = '~' := by simpa [compOk, combOk] using h
+    rcases this with (e | e) | e <;> subst e <;> decide
+  | compound ss => exact h
+
+theorem sel_nm (sel : Selector) (h : selG sel = true) :
+    nm Ppre (rulePrelude .compressed sel) = nm Ppre (rulePrelude .expanded sel) := by
+  simp only [selG, Bool.and_eq_true] at h
+  exact (nm_of_EqRun (EqRun_selectorLoop true _ h.1.1).1).symm
+
+theorem EqRun_value (v : Value) (h : v.g = true) (hb : v.isBlank = false) :
+    EqRun Pitem (v.out .expanded) (v.out .compressed) := by
+  cases v with
+  | atom a => exact EqRun_refl _ _
+  | list sep items =>
+    simp only [Value.g] at h
+    have hf : (items.filter (fun a => !a.isBlank)).all Atom.g = true := by
+      simp only [List.all_eq_true, List.mem_filter, Bool.or_eq_true, Bool.not_eq_true', and_imp] at *
+      intro a ha hnb
+      rcases h a ha with e | e
+      · rw [hnb] at e; simp at e
+      · exact e
+    exact (EqRun_listLoop sep _ hf).1
+
+theorem decl_nm (name : Str) (custom : Bool) (v : Value) (hn : flat name = true) (hv : v.g = true) (hb : v.isBlank = false) :
+    nm Pitem (declText .compressed name custom v) = nm Pitem (declText .expanded name custom v) := by
+  refine (nm_of_EqRun ?_).symm
+  simp only [declText]
+  have hsp : EqRun Pitem ([':'] ++ (if (!custom && !Style.isCompressed .expanded) = true then [' '] else []))
+      ([':'] ++ (if (!custom && !Style.isCompressed .compressed) = true then [' '] else [])) := by
+    cases custom
+    · exact EqRun_after Pitem ':' [' '] (by decide) (by decide) (by decide) (by decide)
+    · exact EqRun_refl _ _
+  have hse : EndsN ([':'] ++ (if (!custom && !Style.isCompressed .expanded) = true then [' '] else [])) := by
+    cases custom <;> decide
+  have := EqRun_append (EqRun_append (EqRun_refl Pitem name) (EndsN_flat hn) hsp) (EndsN_append (EndsN_flat hn) hse)
+    (EqRun_value v hv hb)
+  simpa [List.append_assoc] using this
+
+theorem EqRun_joinQueries (l : List Str) (h : l.all flat = true) :
+    EqRun Ppre (joinWith (',' :: optSp .expanded) l) (joinWith (',' :: optSp .compressed) l) ∧
+      EndsN (joinWith (',' :: optSp .expanded) l) := by
+  induction l with
+  | nil => exact ⟨EqRun_refl _ _, EndsN_nil⟩
+  | cons x r ih =>
+    simp only [List.all_cons, Bool.and_eq_true] at h
+    cases r with
+    | nil => exact ⟨by simpa [joinWith] using EqRun_refl Ppre x, by simpa [joinWith] using EndsN_flat h.1⟩
+    | cons y r' =>
+      obtain ⟨i1, i2⟩ := ih h.2
+      have hsep : EqRun Ppre (',' :: optSp .expanded) (',' :: optSp .compressed) :=
+        EqRun_after Ppre ',' [' '] (by decide) (by decide) (by decide) (by decide)
+      have hse : EndsN (',' :: optSp .expanded) := by decide
+      simp only [joinWith]
+      exact ⟨EqRun_append (EqRun_append (EqRun_refl _ _) (EndsN_flat h.1) hsep) (EndsN_append (EndsN_flat h.1) hse) i1,
+        EndsN_append (EndsN_append (EndsN_flat h.1) hse) i2⟩
+
+theorem media_nm (qs : List Query) (h : (qs.map queryOut).all flat = true) :
+    nm Ppre (mediaPrelude .compressed qs) = nm Ppre (mediaPrelude .expanded qs) := by
+  refine (nm_of_EqRun ?_).symm
+  simp only [mediaPrelude]
+  exact EqRun_append (EqRun_refl _ _) (by decide) (EqRun_joinQueries _ h).1
+
+
 mutual
 theorem g_readable (st : Style) : ∀ (s : Stmt), s.g = true → s.readable st = true
   | .rule ge sel body, h => by
@@ -919,7 +1344,7 @@ theorem g_canon : ∀ (s : Stmt), s.g = true → canonStmt .compressed s = canon
   | .rule ge sel body, h => by
     cases hv : (Stmt.rule ge sel body).isInvisible
     · simp only [Stmt.g, hv, Bool.false_or, Bool.and_eq_true] at h
-      rw [canonStmt, canonStmt, (sel_indep sel h.1 .compressed).2, (sel_indep sel h.1 .expanded).2, gs_canon body h.2]
+      rw [canonStmt, canonStmt, sel_nm sel h.1, gs_canon body h.2]
     · rw [canonStmt, canonStmt]; simp [hv]
   | .decl name custom v, h => by
     simp only [Stmt.g, Bool.or_eq_true, Bool.and_eq_true] at h
@@ -928,13 +1353,12 @@ theorem g_canon : ∀ (s : Stmt), s.g = true → canonStmt .compressed s = canon
     · rcases h with h | h
       · rw [hb] at h; simp at h
       · simp only [Bool.false_eq_true, if_false]
-        rw [(decl_indep name custom v h.1.1 h.1.2 h.2 hb .compressed).2,
-          (decl_indep name custom v h.1.1 h.1.2 h.2 hb .expanded).2]
+        rw [decl_nm name custom v h.1.1 h.2 hb]
     · simp
   | .media ge qs body, h => by
     cases hv : (Stmt.media ge qs body).isInvisible
     · simp only [Stmt.g, hv, Bool.false_or, Bool.and_eq_true] at h
-      rw [canonStmt, canonStmt, (media_indep qs h.1 .compressed).2, (media_indep qs h.1 .expanded).2, gs_canon body h.2]
+      rw [canonStmt, canonStmt, media_nm qs h.1, gs_canon body h.2]
     · rw [canonStmt, canonStmt]; simp [hv]
   | .supports ge p body, h => by
     cases hv : (Stmt.supports ge p body).isInvisible
